@@ -6,6 +6,7 @@ for d in seeded/C*-*; do
   [ -f $d/patch.diff ] || continue
   cfgs=""
   [ "$id" = "C14-4" ] && cfgs="N"
+  [ "$id" = "C08-6" ] && cfgs="X"
   [ "$prop" = "C15" ] && cfgs="Q M"
   out=$(VERIF_CFGS="$cfgs" python3 tools/try_seed_scratch.py $d/patch.diff $prop 2>&1)
   n=$(echo "$out" | grep -o "new_violations=[0-9]*" | cut -d= -f2 | sort -n | tail -1)
